@@ -15,14 +15,20 @@ Driver for C18.  One request per line, fields separated by `|`, tokens inside a 
         fp = trigger of finding F18p (the parser rejects or corrupts this legal sequence type).
 
   H|<xsd11 0/1>|<base is an inline function 0/1>|<pool: value>|<op>;<op>;…   → `hist=<e>;<e>;…`   (judgement history on function items)
-        op ::= jm <i> <ty> | ji <i> <ty> | jt <i> <ty> | p <i> <n> <0/1>^n     (1 = placeholder `?`)
-        e  ::= `-` for a partial application, else `<model>/<spec>/<q>/<r>` (r = trigger of F18r): model = answer of the model
+        op ::= jm <i> <ty> | ji <i> <ty> | jt <i> <ty> | ja <i> <ty> | p <i> <n> <0/1>^n     (1 = placeholder `?`;
+        ja = the item passed to a parameter declared with that type, spec `-`: function coercion is not modelled)
+        e  ::= `-` for a partial application, else `<model>/<spec>/<q>/<r>`: model = answer of the model
         (partial applications typed as the code does), spec = XPath matching with partial applications
-        typed by `partialSig`, q = 1 iff the judged item descends from a non-prefix mask (trigger of F18q)
+        typed by `partialSig`, q = 1 iff the judged item descends from a non-prefix mask (histogram only; the former
+        findings F18q / F18r are repaired), r = 0
+
+  T|<ty>                         → `text=<the normalised text of the type>` and, for a typed function test,
+        ` split=<piece>␟<piece>…␟=>␟<return text>` (what `partition(') as ')` / `split(', ')` extract; ␟ = U+241F)
 
 Token syntax (Polish notation):
   ty    ::= E | L <leaf> <occ> | F <n> <ty>^n <ty> | M <k> <ty> <occ> | A <ty> <occ>
   leaf  ::= item | node | a <idx> | num | l <idx> | anyType | anySimple | K <kind> <nt> | D <nt>
+            | KT <kind> <nt> <untyped|anyType|anySimple|t <idx>> <0/1: T?>
             | fany | many | aany
   kind  ::= d | e | a | t | c | p | n          nt ::= - | * | <number>         occ ::= 1 | ? | * | +
   value ::= <len> <item>^len
@@ -33,6 +39,7 @@ import EPV.Proto
 import EPV.Spec.XPathTypes
 import EPV.Lemmas.SeqTypeSpec
 import EPV.Lemmas.SeqTypeHist
+import EPV.Lemmas.SeqTypeText
 import EPV.Gen.C18Tables
 open EPV.Proto EPV.SeqType
 
@@ -66,6 +73,15 @@ def pLeaf : P Leaf
   | "anyType" :: ts => some (.anyType, ts) | "anySimple" :: ts => some (.anySimpleType, ts)
   | "K" :: ts => do let (k, r) ← pKind ts; let (nt, r) ← pNt r; pure (.kind k nt, r)
   | "D" :: ts => (pNt ts).map fun (nt, r) => (.docElem nt, r)
+  | "KT" :: ts => do
+      let (k, r) ← pKind ts; let (nt, r) ← pNt r
+      let (ta, r) ← (match r with
+        | "untyped" :: r => some (TyArg.untyped, r) | "anyType" :: r => some (.anyType, r)
+        | "anySimple" :: r => some (.anySimpleType, r)
+        | "t" :: r => (pNat r).map fun (n, r) => (.atomic n, r)
+        | _ => none)
+      let (o, r) ← pNat r
+      pure (.kindT k nt ta (o != 0), r)
   | "fany" :: ts => some (.funcAny, ts) | "many" :: ts => some (.mapAny, ts) | "aany" :: ts => some (.arrayAny, ts)
   | _ => none
 
@@ -120,6 +136,7 @@ def pOp : P HOp
   | "jm" :: ts => do let (i, r) ← pNat ts; let (t, r) ← pTy r; pure (.jMatch i t, r)
   | "ji" :: ts => do let (i, r) ← pNat ts; let (t, r) ← pTy r; pure (.jInst i t, r)
   | "jt" :: ts => do let (i, r) ← pNat ts; let (t, r) ← pTy r; pure (.jTreat i t, r)
+  | "ja" :: ts => do let (i, r) ← pNat ts; let (t, r) ← pTy r; pure (.jArg i t, r)
   | "p" :: ts => do
       let (i, r) ← pNat ts; let (n, r) ← pNat r; let (bits, r) ← pRep pNat n r
       pure (.papp i (bits.map (· != 0)), r)
@@ -144,29 +161,45 @@ def answer (line : String) : String :=
       let xsd11 := x == "1"
       let m := matchSt tables xsd11 true ty val
       let i := instanceOf tables xsd11 ty val
-      let sp := if ty.atomicNamesOnly then (if specMatch (specTables xsd11) (isRestriction tables) ty val then "T" else "F") else "-"
+      let sp := if ty.specDefined then (if specMatch (specTables xsd11) (isRestriction tables) ty val then "T" else "F") else "-"
       let tr := match treatAs tables xsd11 ty val with
         | .ok w => if w.length == val.length then "T" else "DIFF"
         | .error .XPDY0050 => "F"
         | .error e => showRes (.error e)
-      s!"match={showRes m} inst={showRes i} treat={tr} spec={sp} fd={b01 (trigF18d ty val)} fi={b01 (trigF18i ty val)} dom={b01 (domT ty val)} fp={b01 ty.parserGap}"
+      s!"match={showRes m} inst={showRes i} treat={tr} spec={sp} fd={b01 (trigF18d ty val)} fi={b01 (trigF18i ty val)} dom={b01 (domT ty val)} fp={b01 ty.parserGap} fk={b01 ty.hasTypeArg}"
     | _, _ => "bad-judgement"
-  | ["H", x, inl, v, opsS] =>
+  | ["T", t] =>
+    match parseAll pTy t with
+    | some ty =>
+      let nm := fun i => atomNames.getD i "?"
+      let ln := fun i => listNames.getD i "?"
+      let toks := ty.render nm ln
+      let txt := String.join (toks.map Tok.text)
+      match ty with
+      | .func _ _ =>
+        let sp := pySplit toks
+        let pcs := sp.1.map (fun p => String.join (p.map Tok.text))
+        s!"text={txt} split={"␟".intercalate pcs}␟=>␟{String.join (sp.2.map Tok.text)}"
+      | _ => s!"text={txt}"
+    | none => "bad-type"
+  | ["H", x, _inl, v, opsS] =>
     match parseAll pValue v, ((opsS.splitOn ";").filter (fun o => (toks o) ≠ [])).mapM (parseAll pOp) with
     | some pool, some ops =>
       let xsd11 := x == "1"
       let res := hRun tables xsd11 pool ops
       -- walk the history once more for the spec pool and the taint flags
-      let baseArity := match pool with | .func a _ :: _ => a.length | _ => 0
       let step (st : List Item × List Bool × List String × List HOp) (opr : HOp × Option Res) :
           List Item × List Bool × List String × List HOp :=
         let (sp, fl, out, before) := st
         match opr.1 with
         | .papp i mask => (sp ++ [(sp.getD i default).partialApplySpec mask], fl ++ [fl.getD i false || !prefixMask mask], out ++ ["-"], before ++ [opr.1])
+        | .jArg i _ =>
+          let m := match opr.2 with | some r => showRes r | none => "?"
+          (sp, fl, out ++ [s!"{m}/-/{b01 (fl.getD i false)}/0"], before ++ [opr.1])
         | .jMatch i t | .jInst i t | .jTreat i t =>
           let m := match opr.2 with | some r => showRes r | none => "?"
           let s := if specMatch (specTables xsd11) (isRestriction tables) t [sp.getD i default] then "T" else "F"
-          (sp, fl, out ++ [s!"{m}/{s}/{b01 (fl.getD i false)}/{b01 (trigF18r (inl == "1") baseArity before i)}"], before ++ [opr.1])
+          (sp, fl, out ++ [s!"{m}/{s}/{b01 (fl.getD i false)}/0"], before ++ [opr.1])
       let (_, _, out, _) := (ops.zip res).foldl step (pool, pool.map (fun _ => false), [], [])
       "hist=" ++ ";".intercalate out
     | _, _ => "bad-history"
